@@ -70,6 +70,10 @@ func c05(r *Report) {
 
 	// (4) ATOMIC
 	gad := p.Func("storage", "SessionStoreImpl", "GetAndDelete")
+	// the burn primitive reports success only if the value was read and the backend's own Delete reported success
+	// (a backend that reports a miss on Delete makes the loser of two concurrent burns fail; a miss-tolerant delete hides that)
+	r.Gate(Gate{ID: "C05.burn.read-succeeded", Fn: gad, Effect: SuccessReturn(), Check: ErrCheck(Fn("storage", "SessionStoreImpl", "Get"))})
+	r.Gate(Gate{ID: "C05.burn.delete-error-decides", Fn: gad, Effect: SuccessReturn(), Check: ErrCheck(Fn("github.com/eko/gocache/lib/v4/cache", "Cache", "Delete"))})
 	r.Atomic(AtomicSpec{ID: "C05.atomic", Fn: gad, What: "the burn primitive of all single-use stores",
 		Reads:  []Callee{Fn("storage", "SessionStoreImpl", "Get"), Fn("github.com/eko/gocache/lib/v4/cache", "Cache", "Get")},
 		Writes: []Callee{Fn("github.com/eko/gocache/lib/v4/cache", "Cache", "Delete"), Fn("storage", "SessionStoreImpl", "Delete")}})
@@ -180,6 +184,26 @@ func c05DeferredBurn(r *Report, fn *ssa.Function) {
 		return
 	}
 	r.Sites++
+	// the deferred closure deletes on every path (an `if` around the Delete would let a failed attempt keep the code alive)
+	for _, cl := range closuresOfValue(def.Call.Value) {
+		dels := Calls(cl, StoreOp("oauthCodeStore", "Delete"))
+		if len(dels) == 0 {
+			continue
+		}
+		blocked := map[*ssa.BasicBlock]bool{}
+		for _, d := range dels {
+			blocked[d.Block()] = true
+		}
+		if !blocked[cl.Blocks[0]] {
+			reach := Reach(cl.Blocks[0], EdgeSet{}, blocked)
+			for b := range reach {
+				if _, isRet := b.Instrs[len(b.Instrs)-1].(*ssa.Return); isRet && !blocked[b] {
+					r.Bad(key, rule, p.Pos(dels[0].Pos()), "the deferred closure can return without deleting the code (the Delete is conditional)")
+					return
+				}
+			}
+		}
+	}
 	// the burn-read must be dominated by the defer
 	for _, ci := range Calls(fn, StoreOp("oauthCodeStore", "GetAndDelete")) {
 		if !InstrDominates(def, ci) {
